@@ -201,5 +201,6 @@ func runC06(c *Ctx) {
 	}
 	r.Floor("ser-method", len(bn), 15, "statement types returned by the parser")
 	runC06Kw(c)
+	c06OptionIndependence(c, p, astPath)
 	_ = token.ADD
 }
